@@ -442,7 +442,11 @@ def used_qubits(den_node, all_cells, busy=("prepare_all", "measure_all"), idle=(
             out |= used_qubits(i, all_cells, busy, idle)
         return out
     if k == "sub":
-        out = set(all_cells)
+        # the implicit prepare/measure of an unexpanded subcircuit block is not a gate yet:
+        # only the written gates are counted here (callers accept "all qubits" as well)
+        out = set()
+        for i in den_node[2]:
+            out |= used_qubits(i, all_cells, busy, idle)
         return out
     if k == "loop":
         return used_qubits(den_node[2], all_cells, busy, idle)
